@@ -153,6 +153,11 @@ def st_case(draw, max_len=25):
             big_addr = draw(st.sampled_from(addrs))
             body = body + [["set", ["R0", draw(st.sampled_from([2**31 - 1, -(2**31), 2**30 + 7]))]], [draw(st.sampled_from(["add", "sub"])), ["R1", "R0", draw(st.sampled_from(["R0", "R3"]))]],
                            ["add", ["R1", "R1", "R1"]], ["store", ["R1", {"addr": big_addr, "idx": draw(st.sampled_from(IDX_CONST))}]], ["ret_arr", [{"addr": big_addr}]]]
+        if draw(st.integers(0, 9)) == 0:
+            # a defined value is stored, then a register that was never written (C9 is in no pool) is stored into the same entry:
+            # the second store faults and must leave the entry as it was
+            st_addr_, st_idx_ = draw(st.sampled_from(addrs)), draw(st.sampled_from(IDX_CONST))
+            body = body + [["store", [draw(st_src), {"addr": st_addr_, "idx": st_idx_}]], ["store", ["C9", {"addr": st_addr_, "idx": st_idx_}]]]
         if again and k == again_at - 1:
             body = body + [["store", [draw(st_src), {"addr": again_addr, "idx": draw(st.sampled_from(IDX_CONST))}]], ["ret_arr", [{"addr": again_addr}]]]
         if again and k == again_at:
